@@ -25,7 +25,7 @@ def mk_model(name, cols, pk, rng, measures_on):
 
 def gen_forest(rng):
     """returns (models, tables). Shapes: chain (items->orders->customers[->regions]), star, junction."""
-    shape = rng.choice(["chain2", "chain3", "chain3", "chain4", "star", "junction"])
+    shape = rng.choice(["chain2", "chain3", "chain3", "chain4", "star", "junction", "vee"])
     NULL_RATE[0] = rng.choice([0.0, 0.0, 0.0, 0.15])
     tables = {}
     def rows_for(name, cols, n, fk_targets):
@@ -92,6 +92,18 @@ def gen_forest(rng):
                 if c.endswith("_id") and c != "id":
                     fkt[c] = sizes[names.index(c[:-3])]
             tables[m["table"]] = {"cols": m["_cols"], "rows": rows_for(m["name"], m["_cols"], n, fkt)}
+    elif shape == "vee":
+        # two parents of one child, related only through it (students <- enrollments -> courses), plain foreign keys
+        st = mk_model("students", ["id", "name", "status", "budget"], ["id"], rng, ["budget"])
+        co = mk_model("courses", ["id", "dept", "credits"], ["id"], rng, ["credits"])
+        en = mk_model("enrollments", ["id", "student_id", "course_id", "qty"], ["id"], rng, ["qty"])
+        declare(en, st, "student_id")
+        declare(en, co, "course_id")
+        ms = [st, co, en]
+        ns, nc = rng.choice([3, 4]), rng.choice([2, 3])
+        tables["students_t"] = {"cols": st["_cols"], "rows": rows_for("students", st["_cols"], ns, {})}
+        tables["courses_t"] = {"cols": co["_cols"], "rows": rows_for("courses", co["_cols"], nc, {})}
+        tables["enrollments_t"] = {"cols": en["_cols"], "rows": rows_for("enrollments", en["_cols"], rng.choice([4, 7]), {"student_id": ns, "course_id": nc})}
     else:  # junction
         st = mk_model("students", ["id", "name", "status"], ["id"], rng, [])
         co = mk_model("courses", ["id", "dept", "credits"], ["id"], rng, ["credits"])
